@@ -69,8 +69,14 @@ impl Path {
             }
         }
 
+        // Cache the text as it was given, including the leading "." of a
+        // relative path (it had been stripped from `cs` above).
         let cs_cell = OnceCell::new();
-        let _ = cs_cell.set(cs);
+        let _ = cs_cell.set(if is_relative {
+            format!(".{cs}")
+        } else {
+            cs
+        });
 
         Path {
             components,
